@@ -15,6 +15,7 @@
 """
 from vlib import x_handlers as xh
 from vlib import x_hcheck
+from vlib import impl
 
 ALL = {(): "RWrw", (10,): "RWrw", (11,): "RWrw", (10, 20): "RWrw", (10, 21): "RWrw", (11, 20): "RWrw", (11, 22): "RWrw",
        (10, 22): "RWrw", (10, 20, 101): ""}
@@ -387,6 +388,37 @@ def gen_cross_user(rng, et):
     return (cfg, pols), hist
 
 
+def resource_type_equivalence(ctx):
+    """Every typed collection (calendar, address book, subscription) is created under the SAME access decision: the handler
+    model covers calendars and address books; a resource type it does not know must not be cheaper."""
+    kinds = {"calendar": '<C:calendar xmlns:C="urn:ietf:params:xml:ns:caldav"/>',
+             "addressbook": '<CR:addressbook xmlns:CR="urn:ietf:params:xml:ns:carddav"/>',
+             "subscribed": '<CS:subscribed xmlns:CS="http://calendarserver.org/ns/"/>'}
+    body = ('<?xml version="1.0"?><D:mkcol xmlns:D="DAV:"><D:set><D:prop><D:resourcetype><D:collection/>%s</D:resourcetype>'
+            '<D:displayname>x</D:displayname></D:prop></D:set></D:mkcol>')
+    conf = {"auth": {"type": "none"}, "rights": {"type": "vlib.x_rights"}}
+    for perms_path in ("", "W", "w", "Ww", "RW", "rw", "R", "r", "RrWw"):
+        for perms_parent in ("RW", "RrWw", "Rr", ""):
+            got = {}
+            for kind, el in kinds.items():
+                xh.POLICY.clear()
+                xh.POLICY[("u0", "")] = "R"
+                xh.POLICY[("u0", "u0")] = perms_parent
+                xh.POLICY[("u0", "u0/c2")] = perms_path
+                with impl.Server(conf=conf) as srv:
+                    srv.request("MKCOL", "/u0/", login="u0:")
+                    import os as _os
+                    _os.makedirs(_os.path.join(srv.folder, "collection-root", "u0"), exist_ok=True)
+                    st = srv.request("MKCOL", "/u0/c2/", data=body % el, login="u0:")[0]
+                    got[kind] = "created" if st == 201 else ("refused" if st in (401, 403) else str(st))
+                ctx.case(("rtype", perms_path, perms_parent, kind), nontrivial=True)
+            ctx.count("resource-type-equivalence:%s" % "/".join(sorted(set(got.values()))))
+            if len(set(got.values())) != 1:
+                ctx.violation("MKCOL of a typed collection under permissions %r (parent %r) is decided differently per resource type: %r" % (
+                    perms_path, perms_parent, got), dict(path_permissions=perms_path, parent_permissions=perms_parent, outcomes=got))
+                return
+
+
 def run(ctx):
     ctx.rule = ("(i) handler histories as in C01 but with ~40% random permission tables (letters R r W w i d D o O in any mix) for three "
                 "users incl. anonymous; (ii) pairs of stores differing only inside subtrees dark for the probing user, same 6-20 requests; "
@@ -403,6 +435,7 @@ def run(ctx):
     x_hcheck.run_histories(ctx, ctx.n(200, 6000), monitor=monitor, tag="c03")
     x_hcheck.run_histories(ctx, ctx.n(80, 2500), gen=gen_cross_user, monitor=monitor, tag="c03x")
     two_store_differential(ctx, ctx.n(60, 2500))
+    resource_type_equivalence(ctx)
 
 
 def replay(ctx, path):
